@@ -65,7 +65,8 @@ MESSAGES = [
     ('Wrapping key does not exist', 'RWrapKeyMissing'),
     ('The cryptographic parameters must be specified', 'RParams'),
     ('The cryptographic algorithm must be specified for the MAC', 'RParams'),
-    ('No data to be MACed', 'RParams'),
+    ('No data to be MACed', 'RParams'), ('A secret key value must be specified', 'RParams'),
+    ('The cryptographic length must not be negative', 'RParams'), ('it must be a multiple of 8', 'RParams'),
 ]
 GATED = ('encrypt', 'decrypt', 'sign', 'verify_signature', 'mac', 'derive_key', 'wrap_key')
 # the property's "right kind" per operation, as stored Object Type names (see notes/C04.md for MAC)
@@ -77,6 +78,11 @@ ATTRS = ['Object Type', 'State', 'Cryptographic Usage Mask']
 PSEUDO = ('Version', 'Restart', 'Batch', 'Clock')
 VERSIONS = [(1, 2), (1, 3), (1, 4), (2, 0)]       # the versions under which every operation of the alphabet exists
 ALLBITS = sum(e.value for e in M)
+# attributes through which a State could be written besides Activate / Revoke; the code refuses every write of them
+LIFECYCLE_ATTRS = ['State', 'Activation Date', 'Deactivation Date', 'Compromise Date', 'Compromise Occurrence Date',
+                   'Destroy Date', 'Process Start Date', 'Protect Stop Date']
+ATTR_HOW = ['modify1', 'set2', 'modify2', 'delete1']
+ATTR_REASONS = ('INVALID_FIELD', 'ATTRIBUTE_NOT_FOUND', 'PERMISSION_DENIED', 'READ_ONLY_ATTRIBUTE', 'ITEM_NOT_FOUND')  # ITEM_NOT_FOUND: 'not applicable to ... objects'
 OPTIONAL_FLAVOURS = {'Encrypt': ['aead', 'noiv'], 'Decrypt': ['aead', 'noiv'], 'Sign': [], 'SignatureVerify': ['digested', 'allopt']}
 ALGS = [a.name for a in ALG]                 # every member: a stored key may carry any of them as its own algorithm
 CREATABLE = {'AES': (ALG.AES, 128), 'AES256': (ALG.AES, 256), 'TRIPLE_DES': (ALG.TRIPLE_DES, 192), 'BLOWFISH': (ALG.BLOWFISH, 128),
@@ -120,6 +126,11 @@ def secret_for(tname, mat, alg=None):
     return kdrv.secret_for(ot)
 
 
+def derive_length(op):
+    """Cryptographic Length (bits) of a DeriveKey template: ('DeriveKey', bases, mask, own algorithm or None, length)."""
+    return int(op[4]) if len(op) > 4 and op[4] is not None else 128
+
+
 def refs(op):
     """Offsets of the objects an operation addresses."""
     k = op[0]
@@ -129,6 +140,8 @@ def refs(op):
         return []
     if k == 'RegisterWrapped':
         return [op[1]]
+    if k == 'CreateLA':
+        return []
     if k == 'DeriveKey':
         return list(op[1])
     if k == 'GetWrap':
@@ -228,6 +241,28 @@ class Runner:
             t = op[1]
             return kdrv.register(TYPES[t], secret=secret_for(t, self.mat, op[3] if len(op) > 3 else None),
                                  mask=(mask_list(op[2]) if t != 'OpaqueData' else None))
+        if kind in ('AttrWrite', 'CreateLA'):
+            # ('AttrWrite', k, how, attribute name, value) / ('CreateLA', 'Create' | stored type, attribute name, value, mask)
+            name, val = (op[3], op[4]) if kind == 'AttrWrite' else (op[2], op[3])
+            tag = name.upper().replace(' ', '_')
+            value = enums.State[val] if name == 'State' else int(self.eng.clock.t + val)      # dates relative to the engine's clock
+            if kind == 'CreateLA':
+                a = kdrv.attr(tag, value)
+                if op[1] == 'Create':
+                    return kdrv.create(ALG.AES, 128, mask_list(op[4]), extra=[a])
+                t = op[1]
+                attrs = ([kdrv.attr('CRYPTOGRAPHIC_USAGE_MASK', mask_list(op[4]))] if t != 'OpaqueData' else []) + [a]
+                return kdrv.register(TYPES[t], secret=secret_for(t, self.mat), attrs=attrs)
+            how = op[2]
+            if how == 'modify1':
+                return kdrv.modify_attribute_v1(u(op[1]), kdrv.attr(tag, value))
+            if how == 'delete1':
+                return kdrv.delete_attribute_v1(u(op[1]), name)
+            if how == 'set2':
+                return kdrv.set_attribute(u(op[1]), kdrv.attr_value(tag, value))
+            if how == 'modify2':
+                return kdrv.modify_attribute_v2(u(op[1]), kdrv.attr_value(tag, value))
+            raise ValueError(op)
         if kind == 'RegisterWrapped':
             # a symmetric key in WRAPPED form whose Key Wrapping Data names object op[1] of this server as the wrapping
             # key (NIST key wrap, really wrapped under that key's value when it is an AES-sized key we can Get)
@@ -305,7 +340,7 @@ class Runner:
             dp = cattrs.DerivationParameters(
                 cryptographic_parameters=kdrv.crypto_params(hashing_algorithm=enums.HashingAlgorithm.SHA_256))
             return kdrv.derive_key([u(k) for k in op[1]], enums.DerivationMethod.HASH, dp,
-                                   kdrv.sym_attrs(ALG[op[3]] if len(op) > 3 and op[3] else ALG.AES, 128, mask_list(op[2])))
+                                   kdrv.sym_attrs(ALG[op[3]] if len(op) > 3 and op[3] else ALG.AES, derive_length(op), mask_list(op[2])))
         if kind == 'GetWrap':
             spec = cobjects.KeyWrappingSpecification(
                 wrapping_method=enums.WrappingMethod.ENCRYPT,
@@ -367,9 +402,12 @@ class Runner:
                 raise RuntimeError('GetAttributes and the tables differ for %d: %r vs %r' % (x, a, v[x]))
         return v
 
-    def classify(self, item, crypto):
+    def classify(self, item, crypto, op=None):
         if kdrv.ok(item):
             return ('OK',)
+        if op is not None and op[0] in ('AttrWrite', 'CreateLA') and crypto is None and item['reason'] in ATTR_REASONS \
+                and 'Could not locate object' not in (item['message'] or ''):
+            return ('Refused', 'RParams', 'AttrRule')       # refused by the attribute rules (unsupported / not set / read-only / required)
         if crypto is not None and crypto['raised'] is not None:
             return ('CryptoFail',)
         if item['reason'] == 'GENERAL_FAILURE':
@@ -427,7 +465,7 @@ class Runner:
         p = item['payload'] or {}
         if op[0] == 'CreateKeyPair':
             return [int(p['public_key_unique_identifier']), int(p['private_key_unique_identifier'])]
-        if op[0] in ('Create', 'Register', 'RegisterWrapped', 'DeriveKey'):
+        if op[0] in ('Create', 'Register', 'RegisterWrapped', 'DeriveKey', 'CreateLA'):
             return [int(p['unique_identifier'])]
         return []
 
@@ -435,7 +473,10 @@ class Runner:
         self.crypto = None
         if op[0] == 'Foreign' and op[1][0] not in ('Activate', 'Revoke', 'Destroy'):
             raise ValueError('Foreign wraps Activate / Revoke / Destroy only: %r' % (op,))
-        r = self.eng.request([self.build(op)], version=self.version, user=('bob' if op[0] == 'Foreign' else 'alice'))
+        version = self.version
+        if op[0] == 'AttrWrite':        # the KMIP 1.x and 2.0 forms of the attribute operations
+            version = (2, 0) if op[2] in ('set2', 'modify2') else ((1, 2) if self.version == (2, 0) else self.version)
+        r = self.eng.request([self.build(op)], version=version, user=('bob' if op[0] == 'Foreign' else 'alice'))
         if r['error'] is not None:
             raise RuntimeError('request-level error for %r: %r' % (op, r['error']))
         item = r['items'][0]
@@ -443,7 +484,7 @@ class Runner:
         new = self.new_uids(op, item)
         self.last = max([self.last] + new)
         after = self.view(self.last, new + [base + k for k in refs(op) if k >= 0], full=full)
-        self.steps.append({'op': op, 'cok': not (crypto and crypto['raised']), 'out': self.classify(item, crypto),
+        self.steps.append({'op': op, 'cok': not (crypto and crypto['raised']), 'out': self.classify(item, crypto, op),
                            'called': crypto is not None, 'status': item['status'], 'reason': item['reason'],
                            'message': item['message'], 'before': self.before, 'after': after, 'crypto': crypto})
         if op[0] == 'RegisterWrapped' and new:
@@ -510,7 +551,7 @@ class Runner:
                 raise RuntimeError('identifier %r issued where %d was predicted' % (new, self.last + 1))
             self.last = max([self.last] + new)
             after = {x: a for x, a in v['view'].items() if x <= self.last or a is not None}
-            self.steps.append({'op': op, 'cok': not (crypto and crypto['raised']), 'out': self.classify(item, crypto),
+            self.steps.append({'op': op, 'cok': not (crypto and crypto['raised']), 'out': self.classify(item, crypto, op),
                                'called': crypto is not None, 'status': item['status'], 'reason': item['reason'],
                                'message': item['message'], 'before': self.before, 'after': after, 'crypto': crypto,
                                'in_batch': True})
@@ -551,6 +592,12 @@ def oracle_step(base, st):
         if not allowed:
             out.append((dict(sig, why='move-not-allowed', code=(op[2] if kind == 'Revoke' else None)),
                         'object %d moved %s -> %s by %s %s' % (x, sb, sa, kind, op[2] if kind == 'Revoke' else '')))
+    # 1b. the lifecycle starts in Pre-Active: an object that appears is Pre-Active (or has no State)
+    for x, a in after.items():
+        if a is not None and before.get(x) is None:
+            if a[1] not in (None, 'PRE_ACTIVE'):
+                out.append(({'clause': 'lifecycle', 'op': kind, 'why': 'not-born-pre-active', 'to': a[1], 'stored_type': a[0]},
+                            'object %d came into being in state %s (by %s) without Activate / Revoke' % (x, a[1], kind)))
     # 2. Destroy is refused for an Active object
     if kind == 'Destroy' and addressed is not None:
         b = before.get(addressed)
@@ -619,6 +666,10 @@ def coq_op(op, base):
     k = op[0]
     if k == 'Foreign':
         return '(ForeignUse %s)' % u(refs(op)[0])
+    if k == 'AttrWrite':
+        return '(AttrWrite %s)' % u(op[1])
+    if k == 'CreateLA':
+        return 'CreateRejected'
     if k == 'Create':
         return '(Create %s)' % cp.z(op[1])
     if k == 'CreateKeyPair':
@@ -636,7 +687,7 @@ def coq_op(op, base):
     if k == 'MAC':
         return '(MAC %s %s %s)' % (u(op[1]), cp.boolean(op[2]), cp.boolean(op[3]))
     if k == 'DeriveKey':
-        return '(DeriveKey %s %s)' % (cp.lst(op[1], u), cp.z(op[2]))
+        return '(DeriveKey %s %s %s)' % (cp.lst(op[1], u), cp.z(op[2]), cp.z(derive_length(op)))
     if k == 'GetWrap':
         return '(GetWrap %s %s)' % (u(op[1]), u(op[2]))
     raise ValueError(op)
@@ -738,6 +789,8 @@ def grid():
                             tests = [('MAC', 0, T, T), ('MAC', 0, False, T), ('MAC', 0, T, False)] if mclass == 'full' else [('MAC', 0, T, T)]
                         elif opname == 'DeriveKey':
                             tests = [('DeriveKey', [0], FULL), ('DeriveKey', [1, 0], 0), ('DeriveKey', [0, -1], FULL)]
+                            if ri == 0 and mclass in ('full', 'lacking'):      # lengths: negative, zero, not whole bytes, 256
+                                tests += [('DeriveKey', [0], FULL, None, n) for n in (-8, -1, 0, 12, 256)]
                             if mclass == 'full' and state == 'PRE_ACTIVE':
                                 tests.append(('DeriveKey', [], FULL))
                         else:
@@ -794,6 +847,24 @@ def wrapped_family():
             out.append(('wrapped', [('Register', t, ALLBITS), ('Activate', 0), ('RegisterWrapped', 0, FULL), ('Activate', 1)]))
     out.append(('wrapped', [('RegisterWrapped', -1, FULL), ('RegisterWrapped', 0, FULL), ('RegisterWrapped', 5, FULL), ('Activate', 0), ('Activate', 1)]))
     out.append(('wrapped', [('Create', ALLBITS), ('Activate', 0), ('Batch', 3), ('RegisterWrapped', 0, ALLBITS), ('Activate', 'P'), ('Encrypt', 'P', T)]))
+    return out
+
+
+def lifecycle_attribute_family():
+    """Every other way a State could be written: SetAttribute / ModifyAttribute (1.x and 2.0 forms) / DeleteAttribute of the
+    lifecycle attributes on an object in every state (by every route), and Create / Register whose template carries one."""
+    out = []
+    vals = {'State': ['ACTIVE', 'PRE_ACTIVE']}
+    for state in ('PRE_ACTIVE', 'ACTIVE', 'DEACTIVATED', 'COMPROMISED'):
+        for route in reach(state):
+            for name in LIFECYCLE_ATTRS:
+                for val in vals.get(name, [-10, 86400 * 365]):      # a date in the past / in the future of the engine's clock
+                    out.append(('lifecycle-attrs', [('Create', FULL)] + route + [('AttrWrite', 0, how, name, val) for how in ATTR_HOW]
+                                + [('Encrypt', 0, T), ('AttrWrite', 1, 'modify1', name, val), ('AttrWrite', -1, 'set2', name, val)]))
+    for name in LIFECYCLE_ATTRS:
+        for val in vals.get(name, [-10, 86400 * 365]):
+            for kind in ('Create', 'SymmetricKey', 'Certificate', 'SecretData', 'PrivateKey'):
+                out.append(('lifecycle-attrs', [('CreateLA', kind, name, val, FULL), ('Activate', 0), ('Encrypt', 0, T), ('Create', FULL), ('Activate', 0)]))
     return out
 
 
@@ -899,6 +970,13 @@ def random_history(rng, length):
                                        ('Encrypt', who, True), ('Decrypt', who, True), ('Sign', who, True),
                                        ('SignatureVerify', who, True), ('MAC', who, True, True), ('GetWrap', who, pick())]))
             length += 1
+        elif r < 0.185:
+            name = rng.choice(LIFECYCLE_ATTRS)
+            val = rng.choice(['ACTIVE', 'PRE_ACTIVE', 'DEACTIVATED']) if name == 'State' else rng.choice([-10, -86400, 0, 86400 * 365])
+            if rng.random() < 0.7 or len(objs) >= 7:
+                ops.append(('AttrWrite', pick(), rng.choice(ATTR_HOW), name, val))
+            else:
+                ops.append(('CreateLA', rng.choice(['Create', 'SymmetricKey', 'PublicKey', 'SecretData']), name, val, rmask()))
         elif r < 0.30:
             ops.append(('Activate', pick()))
         elif r < 0.44:
@@ -920,7 +998,7 @@ def random_history(rng, length):
             ops.append(('MAC', pick(), rng.random() < 0.7, rng.random() < 0.9))
         elif r < 0.93 and len(objs) < 7:
             n = rng.choice([1, 1, 1, 2, 2, 3, 0]) if rng.random() < 0.5 else 1
-            ops.append(('DeriveKey', [pick_type(['SymmetricKey', 'SecretData', 'PrivateKey', 'PublicKey']) for _ in range(n)], rmask()) + ((rng.choice(ALGS),) if rng.random() < 0.4 else ()))
+            ops.append(('DeriveKey', [pick_type(['SymmetricKey', 'SecretData', 'PrivateKey', 'PublicKey']) for _ in range(n)], rmask(), rng.choice(ALGS) if rng.random() < 0.4 else None, rng.choice([128, 128, 128, 256, 64, 8, 0, 0, -8, -128, 12, 7])))
             objs.append('SymmetricKey')      # if it succeeds; otherwise the offsets of the generator drift, which is harmless
         else:
             ops.append(('GetWrap', pick(), pick_type(['SymmetricKey'])))
@@ -937,6 +1015,7 @@ def all_histories(ctx):
             hs.append((name, list(setup) + list(seq)))
     hs += grid()
     hs += batch_family()
+    hs += lifecycle_attribute_family()
     hs += wrapped_family()
     hs += algorithm_family(ctx.tier)
     rng = ctx.subrng('histories')
@@ -947,6 +1026,10 @@ def all_histories(ctx):
 
 
 CORPUS = [
+    # a derived key of length 0 has an empty value: it can be activated, MAC refuses it for want of a key value, the crypto engine refuses it elsewhere
+    [('Create', ALLBITS), ('DeriveKey', [0], ALLBITS, None, 0), ('DeriveKey', [0], ALLBITS, 'HMAC_SHA256', 0), ('Activate', 1), ('Activate', 2),
+     ('MAC', 1, T, T), ('MAC', 2, False, T), ('Encrypt', 1, T), ('Activate', 0), ('GetWrap', 1, 0), ('GetWrap', 0, 1), ('DeriveKey', [1], FULL),
+     ('DeriveKey', [0], FULL, None, -8), ('DeriveKey', [-1], FULL, None, -8), ('DeriveKey', [], FULL, None, -8), ('Revoke', 1, KC), ('Destroy', 1)],
     # every revocation code from every state, then an attempt to go back
     [('Create', FULL), ('Activate', 0), ('Revoke', 0, CA), ('Activate', 0), ('Revoke', 0, KC), ('Revoke', 0, CESS), ('Activate', 0), ('Destroy', 0), ('Activate', 0)],
     [('Create', FULL), ('Revoke', 0, CA), ('Revoke', 0, KC), ('Activate', 0), ('Encrypt', 0, T), ('Destroy', 0)],
@@ -1052,7 +1135,7 @@ def shrink(ctx, ops, sig):
                 group = h[i + 1:i + 1 + o[1]]
                 if not any('P' in [x for x in g[1:] if not isinstance(x, list)] for g in group):
                     out.append(i)           # dissolving a batch: its operations become single requests
-            elif i in inside or o[0] in ('Create', 'CreateKeyPair', 'Register', 'RegisterWrapped', 'DeriveKey'):
+            elif i in inside or o[0] in ('Create', 'CreateKeyPair', 'Register', 'RegisterWrapped', 'DeriveKey', 'CreateLA'):
                 continue
             else:
                 out.append(i)
@@ -1136,7 +1219,7 @@ def run(ctx):
         for s in res['steps']:
             k = s['op'][0]
             ctx.count('op.%s.%s' % (k, s['out'][1] if s['out'][0] == 'Refused' else s['out'][0]))
-            if s['status'] == 'SUCCESS' and k not in ('Create', 'CreateKeyPair', 'Register', 'RegisterWrapped'):
+            if s['status'] == 'SUCCESS' and k not in ('Create', 'CreateKeyPair', 'Register', 'RegisterWrapped', 'CreateLA'):
                 nontrivial = True
             for x, b in s['before'].items():
                 a = s['after'].get(x)
